@@ -476,3 +476,175 @@ Proof. intros Hno pre peers obs post -> n p m Hn Hp LA X Hr Ha Hc.
   assert (Hc' : ((count_adds (n, p) (rev pre) <? 6)%nat || phi_of (phi_at pre) (n, p)) = true).
   { apply orb_true_iff. destruct Hc as [Hc|Hc]; [left; now apply Nat.ltb_lt | now right]. }
   rewrite Hc' in H. now apply Nat.leb_le. Qed.
+
+(* ---------- (1') any history the model agrees with (code 1 not produced) produces no other code ---------- *)
+(* `alerts_eqb` compares alert lists through `alert_code`, which separates alerts only while peer indices are
+   below 1000 and metric ids below 999; the statement is made for such histories *)
+Definition small_metric (m : metric) : Prop := (mpeer m < 1000)%N /\ (mid m < 999)%N.
+Definition small_alert (a : alert_t) : Prop :=
+  (snd (fst a) < 1000)%N /\ match snd a with Some i => (i < 999)%N | None => True end.
+Definition small_history (ops : list op) : Prop :=
+  (forall m, In m (adds_of ops) -> small_metric m) /\
+  (forall o obs a, In o ops -> obs_of_check o = Some obs -> In a obs -> small_alert a).
+Definition key_of_code (c : N) : key := (c / 1000000, (c mod 1000000) / 1000)%N.
+
+Lemma key_of_alert_code a : small_alert a -> key_of_code (alert_code a) = fst a.
+Proof. destruct a as [[n p] oi]. unfold small_alert, key_of_code, alert_code. cbn [fst snd]. intros [Hp Hi].
+  set (j := match oi with Some i => (i + 1)%N | None => 0%N end).
+  assert (Hj : (j < 1000)%N) by (unfold j; destruct oi; lia).
+  assert (E1 : ((n * 1000000 + p * 1000 + j) / 1000000 = n)%N).
+  { symmetry. apply (N.div_unique _ _ n (p * 1000 + j)%N); lia. }
+  assert (E2 : ((n * 1000000 + p * 1000 + j) mod 1000000 = p * 1000 + j)%N).
+  { symmetry. apply (N.mod_unique _ _ n (p * 1000 + j)%N); lia. }
+  assert (E3 : ((p * 1000 + j) / 1000 = p)%N).
+  { symmetry. apply (N.div_unique _ _ p j); lia. }
+  now rewrite E1, E2, E3. Qed.
+
+Lemma insertN_perm x l : Permutation (insertN x l) (x :: l).
+Proof. induction l as [|y r IH]; [reflexivity|]. cbn [insertN]. destruct (x <=? y)%N; [reflexivity|].
+  rewrite IH. apply perm_swap. Qed.
+Lemma sortN_perm l : Permutation (sortN l) l.
+Proof. induction l as [|x r IH]; [reflexivity|]. cbn [sortN fold_right]. fold (sortN r). rewrite insertN_perm. now constructor. Qed.
+Lemma list_eqb_N_eq (a b : list N) : list_eqb N.eqb a b = true -> a = b.
+Proof. revert b. induction a as [|x xs IH]; intros [|y ys]; simpl; try discriminate; auto.
+  rewrite andb_true_iff, N.eqb_eq. intros [-> H]. f_equal. auto. Qed.
+
+Lemma alerts_eqb_keys al obs : (forall a, In a al -> small_alert a) -> (forall a, In a obs -> small_alert a) ->
+  alerts_eqb al obs = true -> Permutation (map fst obs) (map fst al).
+Proof. intros Hal Hobs H. unfold alerts_eqb in H. apply list_eqb_N_eq in H.
+  assert (P : Permutation (map alert_code obs) (map alert_code al)).
+  { rewrite <- (sortN_perm (map alert_code obs)), <- H. apply sortN_perm. }
+  apply (Permutation_map key_of_code) in P. rewrite !map_map in P.
+  rewrite (map_ext_in _ fst obs) in P by (intros a Ha; apply key_of_alert_code; auto).
+  rewrite (map_ext_in _ fst al) in P by (intros a Ha; apply key_of_alert_code; auto). exact P. Qed.
+
+Lemma forallb_ext' {A} (f g : A -> bool) l : (forall x, f x = g x) -> forallb f l = forallb g l.
+Proof. intros H. induction l as [|x r IH]; [reflexivity|]. simpl. now rewrite H, IH. Qed.
+Lemma filter_perm {A} (f : A -> bool) l l' : Permutation l l' -> Permutation (filter f l) (filter f l').
+Proof. induction 1 as [|x l l' P IH|x y l|l l' l'' P1 IH1 P2 IH2]; simpl.
+  - constructor.
+  - destruct (f x); auto.
+  - destruct (f x), (f y); auto. apply perm_swap.
+  - eapply perm_trans; eauto. Qed.
+Lemma alerts_for_keys k l : alerts_for k l = length (filter (fun x => key_eqb x k) (map fst l)).
+Proof. unfold alerts_for. induction l as [|a r IH]; [reflexivity|]. simpl. destruct (key_eqb (fst a) k); simpl; congruence. Qed.
+Lemma alerts_for_perm k a b : Permutation (map fst a) (map fst b) -> alerts_for k a = alerts_for k b.
+Proof. intros P. rewrite !alerts_for_keys. apply Permutation_length. now apply filter_perm. Qed.
+
+(* the invariant only looks at the history through the monitor's five functions *)
+Lemma rel_ext st p1 p2 : rel st p1 ->
+  (forall k, last_add k p2 = last_add k p1) -> (forall k, alerts_since_add k p2 = alerts_since_add k p1) ->
+  (forall k, removed_since_add k p2 = removed_since_add k p1) -> (forall k, count_adds k p2 = count_adds k p1) ->
+  names_added p2 = names_added p1 -> rel st p2.
+Proof. intros R H1 H2 H3 H4 H5. constructor.
+  - apply R.
+  - intros k m. rewrite H1. apply R.
+  - intros k. rewrite H2. apply R.
+  - intros k m. rewrite H1, H2, H3. apply R.
+  - intros k. rewrite H4. apply R.
+  - intros n. rewrite H5. apply R. Qed.
+
+Definition with_obs (o : op) (al : list alert_t) : op :=
+  match o with OCheckPeers peers _ => OCheckPeers peers al | OCheckAll _ => OCheckAll al | _ => o end.
+
+Lemma rel_check_perm now vs st c past o obs : rel st past -> obs_of_check o = Some obs ->
+  Permutation (map fst obs) (map fst (snd (visits now vs (st, c)))) ->
+  rel (fst (fst (visits now vs (st, c)))) (o :: past).
+Proof. intros R Ho P. set (al := snd (visits now vs (st, c))) in *.
+  assert (R' : rel (fst (fst (visits now vs (st, c)))) (with_obs o al :: past)).
+  { apply rel_check; auto. destruct o; try discriminate; reflexivity. }
+  apply (rel_ext _ _ _ R'); try (intros k); destruct o; try discriminate; try reflexivity;
+    cbn [obs_of_check] in Ho; injection Ho as ->; cbn [with_obs alerts_since_add]; now rewrite (alerts_for_perm k _ _ P). Qed.
+
+Lemma fresh_code_perm st c past now vs obs : rel st past ->
+  Permutation (map fst obs) (map fst (snd (visits now vs (st, c)))) -> alerts_fresh_okb now past obs = true.
+Proof. intros R P. unfold alerts_fresh_okb. apply forallb_forall. intros a Ha.
+  assert (Hk : In (fst a) (map fst (snd (visits now vs (st, c))))) by (eapply Permutation_in; [exact P | now apply in_map]).
+  apply in_map_iff in Hk. destruct Hk as [a' [E Ha']].
+  destruct (visits_alerts_expired now vs st c a' Ha') as [m [L [X _]]]. rewrite E in L. now rewrite (r_latest _ _ R _ _ L). Qed.
+
+Lemma visits_alerts_small now vs st c past : rel st past -> (forall m, In m (adds_of past) -> small_metric m) ->
+  forall a, In a (snd (visits now vs (st, c))) -> small_alert a.
+Proof. intros R Hs a Ha. destruct (visits_alerts_expired now vs st c a Ha) as [m [L [_ S]]].
+  apply (r_latest _ _ R) in L. pose proof (last_add_key _ _ _ L) as Ek. apply last_add_in, Hs in L. destruct L as [L1 L2].
+  unfold small_alert. rewrite S, <- Ek. cbn [mkey snd]. auto. Qed.
+
+Lemma mrun_cons o r s : mrun (o :: r) s = snd (mstep o s) && mrun r (fst (mstep o s)).
+Proof. cbn [mrun]. destruct (mstep o s). reflexivity. Qed.
+Lemma mstep_checkpeers_ok peers obs s :
+  snd (mstep (OCheckPeers peers obs) s) =
+  alerts_eqb (snd (check_peers (ms_now s) (phi_of (ms_phi s)) (names (ms_st s)) peers (ms_st s, ms_c s))) obs.
+Proof. unfold mstep. destruct (check_peers _ _ _ _ _) as [[st c] al]. reflexivity. Qed.
+Lemma mstep_checkall_ok obs s :
+  snd (mstep (OCheckAll obs) s) = alerts_eqb (snd (check_all (ms_now s) (phi_of (ms_phi s)) (ms_st s, ms_c s))) obs.
+Proof. unfold mstep. destruct (check_all _ _ _) as [[st c] al]. reflexivity. Qed.
+
+Theorem agreeing_passes_monitor_gen ops : forall s past, rel (ms_st s) past ->
+  NoDup (map mid (adds_of ops ++ adds_of past)) -> (forall m, In m (adds_of ops ++ adds_of past) -> small_metric m) ->
+  (forall o obs a, In o ops -> obs_of_check o = Some obs -> In a obs -> small_alert a) ->
+  mrun ops s = true -> spec_walk ops past (ms_now s) (ms_ps s) (ms_phi s) = [].
+Proof. induction ops as [|o r IH]; intros s past R Hu Hsm Hso Hrun; [reflexivity|].
+  rewrite spec_walk_cons. rewrite mrun_cons in Hrun. apply andb_true_iff in Hrun. destruct Hrun as [Hok Hrun].
+  assert (Hup : uniq_ids past) by (eapply uniq_tail; eauto).
+  assert (Hu' : NoDup (map mid (adds_of r ++ adds_of (o :: past)))).
+  { rewrite (adds_of_cons o past). apply uniq_shift. now rewrite <- adds_of_cons. }
+  assert (Hsm' : forall m, In m (adds_of r ++ adds_of (o :: past)) -> small_metric m).
+  { intros m Hm. apply Hsm. rewrite (adds_of_cons o r). rewrite (adds_of_cons o past) in Hm. rewrite !in_app_iff in *. tauto. }
+  assert (Hsp : forall m, In m (adds_of past) -> small_metric m) by (intros m Hm; apply Hsm; apply in_or_app; now right).
+  assert (Hso' : forall o' obs a, In o' r -> obs_of_check o' = Some obs -> In a obs -> small_alert a)
+    by (intros o' obs' a Ho'; apply Hso; now right).
+  destruct s as [now st c phi ps]. cbn [ms_now ms_st ms_c ms_phi ms_ps] in *.
+  destruct o as [m|dt|p|ps'|k b|peers obs|obs|name obs].
+  - cbn [codes_at app tick setps setphi]. apply (IH (mk_ms now (s_add m st) c phi ps)); auto. now apply rel_add.
+  - cbn [codes_at app tick setps setphi]. apply (IH (mk_ms (now + dt) st c phi ps)); auto. now apply rel_skip.
+  - cbn [codes_at app tick setps setphi]. apply (IH (mk_ms now (s_remove_peer p st) c phi ps)); auto. now apply rel_remove.
+  - cbn [codes_at app tick setps setphi]. apply (IH (mk_ms now st c phi ps')); auto. now apply rel_skip.
+  - cbn [codes_at app tick setps setphi]. apply (IH (mk_ms now st c (kput k b phi) ps)); auto. now apply rel_skip.
+  - (* OCheckPeers *) rewrite mstep_checkpeers_ok in Hok. rewrite mstep_checkpeers in Hrun.
+    cbn [ms_now ms_st ms_c ms_phi ms_ps] in *. cbv zeta in Hrun.
+    pose proof (reported_code_complete st c past now phi peers R) as H13.
+    unfold check_peers in *. set (vs := peers_visits (phi_of phi) (names st) peers) in *.
+    assert (P : Permutation (map fst obs) (map fst (snd (visits now vs (st, c))))).
+    { apply alerts_eqb_keys; auto.
+      - eapply visits_alerts_small; eauto.
+      - intros a Ha. apply (Hso (OCheckPeers peers obs) obs a); auto. now left. }
+    assert (R' : rel (fst (fst (visits now vs (st, c)))) (OCheckPeers peers obs :: past)) by (eapply rel_check_perm; eauto; reflexivity).
+    cbn [codes_at tick setps setphi].
+    rewrite (fresh_code_perm st c past now vs obs R P).
+    assert (H11 : alerts_once_okb (OCheckPeers peers obs :: past) obs = true).
+    { unfold alerts_once_okb. apply forallb_forall. intros a _. apply Nat.leb_le. pose proof (r_once _ _ R' (fst a)). lia. }
+    rewrite H11.
+    assert (H13' : reported_okb now phi past peers obs = true).
+    { unfold reported_okb in *. etransitivity; [|exact H13]. apply forallb_ext'. intros n. apply forallb_ext'. intros p.
+      now rewrite (alerts_for_perm (n, p) _ _ P). }
+    rewrite H13'. cbn [app].
+    apply (IH (mk_ms now (fst (fst (visits now vs (st, c)))) (snd (fst (visits now vs (st, c)))) phi ps)); auto.
+  - (* OCheckAll *) rewrite mstep_checkall_ok in Hok. rewrite mstep_checkall in Hrun.
+    cbn [ms_now ms_st ms_c ms_phi ms_ps] in *. cbv zeta in Hrun.
+    unfold check_all in *. cbn [fst] in *. set (vs := all_visits (phi_of phi) st) in *.
+    assert (P : Permutation (map fst obs) (map fst (snd (visits now vs (st, c))))).
+    { apply alerts_eqb_keys; auto.
+      - eapply visits_alerts_small; eauto.
+      - intros a Ha. apply (Hso (OCheckAll obs) obs a); auto. now left. }
+    assert (R' : rel (fst (fst (visits now vs (st, c)))) (OCheckAll obs :: past)) by (eapply rel_check_perm; eauto; reflexivity).
+    cbn [codes_at tick setps setphi].
+    rewrite (fresh_code_perm st c past now vs obs R P).
+    assert (H11 : alerts_once_okb (OCheckAll obs :: past) obs = true).
+    { unfold alerts_once_okb. apply forallb_forall. intros a _. apply Nat.leb_le. pose proof (r_once _ _ R' (fst a)). lia. }
+    rewrite H11. cbn [app].
+    apply (IH (mk_ms now (fst (fst (visits now vs (st, c)))) (snd (fst (visits now vs (st, c)))) phi ps)); auto.
+  - (* OLatest *) cbn [mstep fst snd ms_now ms_st ms_ps] in Hok, Hrun. apply list_eqb_N_eq in Hok. subst obs.
+    cbn [codes_at tick setps setphi]. rewrite latest_code_complete by auto. cbn [app].
+    apply (IH (mk_ms now st c phi ps)); auto. now apply rel_skip.
+Qed.
+
+Theorem agreeing_passes_monitor_l ops : uniq_ids ops -> small_history ops -> mrun ops ms0 = true ->
+  spec_walk ops [] 0 PNone [] = [].
+Proof. intros Hu [Hs1 Hs2] Hrun. apply (agreeing_passes_monitor_gen ops ms0 []); auto.
+  - apply rel_empty.
+  - cbn [adds_of flat_map]. now rewrite app_nil_r.
+  - cbn [adds_of flat_map]. now rewrite app_nil_r. Qed.
+
+(* outside that range the comparison does not separate alerts: two different alerts with one code *)
+Lemma alert_code_collision : alerts_eqb [((0, 1)%N, None)] [((0, 0)%N, Some 999%N)] = true.
+Proof. reflexivity. Qed.
